@@ -7,6 +7,7 @@ import FCA.Model.Defn
 import FCA.Model.Junctors
 import FCA.Model.Misc
 import FCA.Model.Formats
+import FCA.Model.Render
 /-
 Line protocol driver: one request per line on stdin, one canonical answer per line on stdout.
 See harness/drive.py for the client side.
@@ -145,6 +146,12 @@ def step (st : St) (line : String) : St × String :=
     (st, let l := relations pinnedTable st.K (u == "1")
          if l.isEmpty then "-" else " ".intercalate (l.map fun r =>
            s!"{r.kind}:{r.left}:{match r.right with | some x => toString x | none => "-"}:{r.order}"))
+  | ["relstr", u, ex, names] =>
+    let nm := strListOfHex names
+    (st, hexOfStr (relationsToString pinnedTable st.K (fun p => nm.getD p []) (u == "1") (ex == "1")))
+  | ["cminimal", k] =>
+    let (st, L) := getLattice st
+    (st, match conceptMinimal st.K L (nat! k) with | some b => toString b | none => "None")
   | ["dot"] => let (st, L) := getLattice st
                (st, " ".intercalate ((dotItems L).map showDot))
   | ["tolist"] => let (st, L) := getLattice st
@@ -182,11 +189,15 @@ def step (st : St) (line : String) : St × String :=
       | .ok (d', ret) => (setDef st (nat! s) d', s!"ok {if ret.isEmpty then "-" else ",".intercalate ret} {showDefn d'}")
       | .error e => (st, e.name ++ " " ++ showDefn d)
   | ["dget", s] => (st, showDefn (getDef st (nat! s)))
+  | ["dconflicts", s, u] =>
+    let l := (getDef st (nat! s)).conflictList (getDef st (nat! u))
+    (st, if l.isEmpty then "-" else " ".intercalate (l.map fun (o, p) => s!"{o}:{p}"))
+  | ["dshape", s] => let d := getDef st (nat! s); (st, s!"{d.shape.1} {d.shape.2} {d.fillCount}")
   | ["dgetitem", s, o, p] =>
     match (getDef st (nat! s)).getItem o p with
     | .ok b => (st, if b then "1" else "0")
     | .error e => (st, e.name)
-  | ["dcopy", s, t] => let d := getDef st (nat! s); (setDef st (nat! t) d, "ok " ++ showDefn d)
+  | ["dcopy", s, t] => let d := (getDef st (nat! s)).copy; (setDef st (nat! t) d, "ok " ++ showDefn d)
   | ["dinverted", s, t] => let d := (getDef st (nat! s)).inverted; (setDef st (nat! t) d, "ok " ++ showDefn d)
   | ["dtransposed", s, t] => let d := (getDef st (nat! s)).transposed; (setDef st (nat! t) d, "ok " ++ showDefn d)
   | ["dunion", s, u, ig, t] =>
